@@ -35,7 +35,7 @@ pub struct Layout {
     pub order: Vec<u8>,
     pub compress_pages: Vec<bool>,
     /// insert an unknown chunk / zero-length unknown chunk after chunk index i
-    pub unknown_after: Vec<(u8, u16)>,
+    pub unknown_after: Vec<(u8, u32)>,
     pub lowercase_ids: bool,
     pub ramp_page_order_reversed: bool,
 }
